@@ -32,7 +32,8 @@ BOUNDARY_LENS = [2, 3, 4, 15, 16, 17, 32, 33, 64, 255, 256, 300]
 
 
 def _keys(tier):
-    sizes = ["1024", "1024", "2048"] if tier == "quick" else ["1024", "1024", "2048", "1024", "1536"]
+    # one modulus whose length is not a whole number of bytes (levy crypto keygen -l takes any length)
+    sizes = ["1024", "1024", "2048", "1031"] if tier == "quick" else ["1024", "1024", "2048", "1031", "1536", "2047", "1100"]
     r = common.harness_cmd(["c20keys"] + sizes, timeout=300)
     if r.returncode != 0:
         raise common.HarnessError("key generation failed: " + r.stderr[-500:])
